@@ -277,15 +277,31 @@ def run(rep):
                                    "trace": [], "line": "batch gomaxprocs=%s seed=%s: %s" % (gmp, ss, se[-400:])})
     stats, diffs, ties = compare_all(specs, refs, batches, orc)
 
+    # race detector: thorough = the whole batch; quick = the cases that share the delay table (shared
+    # *simbox.SimDelays, as cmd/simfinetune hands to its workers) plus the corpus
     race_blocks = []
+    rbin = vlib.go_build("c09", race=True)
     if thorough:
-        rbin = vlib.go_build("c09", race=True)
-        e = henv(16, rep.seed * 1000 + 99)
+        racefile = casefile
+    else:
+        sub = [s_ for s_ in speclist if " delays=1 " in s_] + speclist[:len(corpus_cases())]
+        racefile = os.path.join(d, "race-cases.txt")
+        open(racefile, "w").write("".join("C %s\n" % s_ for s_ in sub))
+    race_specs = [l[2:].strip() for l in open(racefile) if l.startswith("C ")]
+    for ss in ([rep.seed * 1000 + 99, 0] if thorough else [rep.seed * 1000 + 99]):
+        e = henv(16, ss)
         e["CGO_ENABLED"] = "1"
-        rc, so, se = vlib.run([rbin, "batch", casefile], timeout=2400, env=e)
-        race_blocks = races(se)
-        stats["race_runs"] = len(parse_runs(so))
-        stats["race_reports"] = len(race_blocks)
+        rc, so, se = vlib.run([rbin, "batch", racefile], timeout=2400, env=e)
+        race_blocks += races(se)
+        rruns = parse_runs(so)
+        batches.append(((16, "race-%s" % ss), rruns))
+        stats["race_runs"] = stats.get("race_runs", 0) + len(rruns)
+    stats["race_reports"] = len(race_blocks)
+    # the race runs' digests are compared like every other run
+    st2, diffs2, _ = compare_all(specs, refs, batches[-(2 if thorough else 1):], orc)
+    diffs += diffs2
+    stats["runs"] += st2["runs"]
+    stats["distinct"] = stats.get("distinct", 0) + st2.get("distinct", 0)
 
     samples = [{"case": speclist[0], "reference_trace_head": refs[kvs(speclist[0].split())["id"]]["trace"][:3]},
                {"case": speclist[-3]}]
@@ -357,8 +373,11 @@ def run(rep):
                        "replay": "python3 tools/check.py C09 --replay <this file>"})
     elif race_real:
         rep.violation({"property": PROP, "kind": "data-race", "report": race_real[0][:6000],
-                       "reports_total": len(race_real), "batch_cases": speclist,
-                       "replay": "python3 tools/check.py C09 --replay <this file> (thorough tier only)"})
+                       "reports_total": len(race_real), "batch_cases": race_specs,
+                       "execution": "h-c09-race batch <batch_cases>, GOMAXPROCS=16: the simulations of one case run "
+                                    "concurrently (2..8 at a time); cases with delays=1 share one *simbox.SimDelays",
+                       "tree_configuration": cfg,
+                       "replay": "python3 tools/check.py C09 --replay <this file>"})
     elif ties or not pr["ok"]:
         broken = list(pr["broken"])
         if ties:
@@ -372,6 +391,26 @@ def run(rep):
 def replay(rep, path):
     hbin = vlib.go_build("c09")
     obj = json.load(open(path))
+    if obj.get("kind") == "data-race":
+        rbin = vlib.go_build("c09", race=True)
+        d = vlib.scratch_dir("c09" + vlib._REPO_TAG)
+        f = os.path.join(d, "replay-race.txt")
+        open(f, "w").write("".join("C %s\n" % s_ for s_ in obj.get("batch_cases", [])))
+        blocks, n = [], 0
+        for attempt in range(4):   # a race needs the right overlap: a few attempts
+            e = henv(16, attempt)
+            e["CGO_ENABLED"] = "1"
+            rc, so, se = vlib.run([rbin, "batch", f], timeout=1800, env=e)
+            n += len(parse_runs(so))
+            blocks = races(se)
+            if blocks:
+                break
+        rep.coverage.update({"evaluations": n, "distinct_nontrivial": max(2, len(obj.get("batch_cases", []))),
+                             "rule": "replay (race detector) of " + path, "samples": obj.get("batch_cases", [])[:3] or ["-"]})
+        if blocks:
+            rep.violation({"property": PROP, "kind": "data-race", "report": blocks[0][:6000],
+                           "reports_total": len(blocks), "batch_cases": obj.get("batch_cases", [])})
+        return
     specs_l = obj.get("batch_cases") or ([obj["case"]] if obj.get("case") else [])
     fd = obj.get("first_disagreement") or {}
     if not specs_l and fd.get("case"):
